@@ -39,6 +39,10 @@ pub struct C12Case {
 	pub nested_depth: u8,
 	pub relative_file_arg: bool,
 	pub with_info_exclude: bool,
+	/// what marks the project origin: 0 a `.git/` directory, 1 nothing at all (an exported tarball that still
+	/// ships its .gitignore), 2 a `.hg/` directory only (the .gitignore files belong to another VCS)
+	#[serde(default)]
+	pub marker: u8,
 }
 
 /// Process-wide fake HOME with the global ignore files (environment is process-global, so it is
@@ -78,12 +82,18 @@ struct Project {
 fn project(c: &C12Case) -> Project {
 	let tmp = tempfile::Builder::new().prefix("vh-c12-").tempdir_in(home().parent().unwrap()).unwrap();
 	let origin = tmp.path().canonicalize().unwrap().join("proj");
-	std::fs::create_dir_all(origin.join(".git/objects")).unwrap();
-	std::fs::create_dir_all(origin.join(".git/info")).unwrap();
+	match c.marker % 3 {
+		0 => {
+			std::fs::create_dir_all(origin.join(".git/objects")).unwrap();
+			std::fs::create_dir_all(origin.join(".git/info")).unwrap();
+		}
+		1 => std::fs::create_dir_all(&origin).unwrap(),
+		_ => std::fs::create_dir_all(origin.join(".hg/store")).unwrap(),
+	}
 	let n = c.suffix;
 	std::fs::write(origin.join(".gitignore"), format!("vcs-only.{n}\n")).unwrap();
 	std::fs::write(origin.join(".ignore"), format!("proj-only.{n}\n")).unwrap();
-	if c.with_info_exclude {
+	if c.with_info_exclude && c.marker % 3 == 0 {
 		std::fs::write(origin.join(".git/info/exclude"), format!("exclude-only.{n}\n")).unwrap();
 	}
 	let mut nested = origin.clone();
@@ -199,7 +209,7 @@ fn source_probes(c: &C12Case, p: &Project) -> Vec<(&'static str, PathBuf, u8)> {
 		("built-in default *.pyc", p.origin.join("x.pyc"), 5),
 		("built-in default .git/**", p.origin.join(".git/objects/y"), 5),
 	];
-	if c.with_info_exclude {
+	if c.with_info_exclude && c.marker % 3 == 0 {
 		v.push((".git/info/exclude", p.origin.join(format!("exclude-only.{n}")), 6));
 	}
 	v
@@ -240,6 +250,7 @@ pub fn run(c: &C12Case) -> Outcome {
 	let option = c.option % 8;
 	o.nontrivial = flags != 0 && option != 0;
 	o.label(format!("option:{}", OPTS[option as usize]));
+	o.label(["marker:.git", "marker:none", "marker:.hg"][(c.marker % 3) as usize]);
 	let modify = FileEventKind::Modify(ModifyKind::Data(DataChange::Content));
 	let create = FileEventKind::Create(CreateKind::File);
 	let n = c.suffix;
@@ -321,7 +332,10 @@ pub fn run(c: &C12Case) -> Outcome {
 				continue; // re-included by the explicit negation whatever the flags
 			}
 			let got_rejected = !with_flags[explicit.len() + k];
-			let want_rejected = !removed(flags, *source);
+			// in a project with a `.git/` directory every source applies unless its flag removes it; in the other
+			// layouts whether a VCS-specific source applies at all is not this property's business, only that a
+			// flag naming it removes it and no other flag changes it
+			let want_rejected = if c.marker % 3 == 0 { !removed(flags, *source) } else { !removed(flags, *source) && !without_flags[explicit.len() + k] };
 			if got_rejected != want_rejected {
 				o.fail(
 					format!("source:{}:{}", what.replace(' ', "-"), if want_rejected { "dropped-by-unrelated-flag" } else { "kept-despite-flag" }),
@@ -548,6 +562,7 @@ fn e2e_strategy() -> BoxedStrategy<C12Case> {
 			nested_depth,
 			relative_file_arg,
 			with_info_exclude,
+			marker: 0,
 		})
 		.boxed()
 }
@@ -564,6 +579,19 @@ fn all_cases(projects: u16) -> Vec<C12Case> {
 					nested_depth: (k % 3) as u8,
 					relative_file_arg: k % 2 == 1,
 					with_info_exclude: k % 2 == 0,
+					marker: 0,
+				});
+			}
+			// the same matrix on a project without any VCS marker and on one with a `.hg/` directory only
+			for marker in 1..3u8 {
+				v.push(C12Case {
+					flags,
+					option,
+					suffix: 800 + u16::from(marker) * 9 + u16::from(option),
+					nested_depth: marker % 3,
+					relative_file_arg: marker == 2,
+					with_info_exclude: false,
+					marker,
 				});
 			}
 		}
@@ -577,7 +605,7 @@ pub fn check(e: &Engine) {
 	e.assume("source-removal table transcribed from the flag docs; for --filter / --filter-file / --exts only the invariance of the explicit probes is asserted (a positive filter rejects the source probes anyway)");
 	e.enumerate(
 		"flag-matrix",
-		"all 64 combinations of the six ignore-source flags x 8 explicit options (none, --ignore, --ignore-file, --filter, --filter-file, --exts, --fs-events, and a negated --ignore that overlaps a built-in default) x generated projects (VCS dir, .gitignore, .ignore, nested .gitignore, .git/info/exclude, global git ignore, global watchexec ignore, paths hit only by the built-in defaults); one probe per source plus probes for the explicit option, inside the origin and under a second watched directory outside it; non-trivial = flag set non-empty and an explicit option given",
+		"all 64 combinations of the six ignore-source flags x 8 explicit options (none, --ignore, --ignore-file, --filter, --filter-file, --exts, --fs-events, and a negated --ignore that overlaps a built-in default) x generated projects (a .git directory; plus one project without any VCS marker and one with only a .hg directory, where only 'a flag removes the sources it names and changes no other' is asserted; .gitignore, .ignore, nested .gitignore, .git/info/exclude, global git ignore, global watchexec ignore, paths hit only by the built-in defaults); one probe per source plus probes for the explicit option, inside the origin and under a second watched directory outside it; non-trivial = flag set non-empty and an explicit option given",
 		true,
 		all_cases(e.tier.pick(3, 40)),
 		&run,
